@@ -77,9 +77,10 @@ def run(ctx):
         first = [x for x in rows if x.conds in ([(GET, False)], [(REP, False)])]
         if r.check('rows', len(rows) == 2 and len(again) == 1 and len(first) == 1 and again[0].conds[0][0] == first[0].conds[0][0], site, built=[x.row() for x in rows]):
             r.check('second-cancel-sends-nothing', again[0].value_str() == 'Ok(())' and not [e for e in again[0].effects if 'basic_cancel' in e or 'call' in e.split('(')[0].split('::')[-1]], site, built=again[0].row())
-            eff = [e for e in first[0].effects if not e.startswith('std::cell::Cell::get')]
-            want = [SET, 'channel::Channel::basic_cancel(self.channel, self)'] if first[0].conds[0][0] == GET else [REP, 'channel::Channel::basic_cancel(self.channel, self)']
-            r.eq('first-cancel', eff, want, site, why='flag set before the request so that a failing or repeated cancel never sends twice')
+            eff = [e for e in first[0].effects if not e.startswith(('std::cell::Cell::get', 'consumer::Consumer::consumer_tag('))]
+            eff = [('channel::Channel::basic_cancel(self.channel, ..)' if e.startswith('channel::Channel::basic_cancel(self.channel, ') else e) for e in eff]
+            want = [SET, 'channel::Channel::basic_cancel(self.channel, ..)'] if first[0].conds[0][0] == GET else [REP, 'channel::Channel::basic_cancel(self.channel, ..)']
+            r.eq('first-cancel', eff, want, site, why='flag set before the request so that a failing or repeated cancel never sends twice (what it carries is judged by the wire row)')
         evs, ret = ctx.events("<consumer::Consumer<'_> as std::ops::Drop>::drop")
         r.check('drop-cancels', any(e.kind == 'call' and e.callee == 'consumer::Consumer::cancel' and S.show(e.args[0]) == 'self' and S.unconditional(e, evs) for e in evs), ctx.site("<consumer::Consumer<'_> as std::ops::Drop>::drop"))
         ems, ret, events = W.read_op(ctx, 'consumer::Consumer::cancel', ['self'])
